@@ -12,8 +12,21 @@
 (*   dir<s> ap<s> apc<s> apm<s> lf<s> lfc<s> lfm<s>    per shank s          *)
 (* (NP2.1: a single pseudo shank 0 living next to the original.)            *)
 (*                                                                         *)
+(* The directory a history starts from (Init) is any combination of a FORM  *)
+(* of the original ("bin" / "cbin": one file; "both": a complete .bin and a  *)
+(* complete .cbin side by side; "binS" / "cbinS": the complete one next to a *)
+(* stale file of the other form, status "P") and a FOUND state of the shank  *)
+(* folders ("none"; "dirs": the folders exist and hold other files only;     *)
+(* "bins" / "cbins" / "mixed": output of another (longer) recording under    *)
+(* the names this conversion writes).  The boxes choose Forms and Founds.    *)
+(*                                                                         *)
 (* A history is a sequence of runs, each by a fresh converter object with   *)
-(* options (overwrite, post_check, compress, delete_original).  A run is    *)
+(* options (overwrite, post_check, compress, delete_original), `part`, `cb`  *)
+(* (the file handed to the converter is the compressed form: it is what      *)
+(* delete_NP24 unlinks, and what decides whether compress_NP21 compresses    *)
+(* the original in place) and `sub` (init_params(nshank=[0]): only the first *)
+(* shank is split off - the verification then refuses, status "refused").    *)
+(* A run is    *)
 (* the sequence of steps of process(); `Crash` interrupts it after any      *)
 (* step.  Implementation layer = the steps as the code performs them        *)
 (* (Variant "orig": before the fix: commit F5, the unconditional unlink of  *)
@@ -43,26 +56,51 @@ VARIABLES kind,       \* probe kind of the input (fixed along a behaviour)
           cs, cph, csub,   \* compression cursor: shank, "ap"/"lf", sub-step
           checkDone,  \* check_completed of the running converter object
           verified,   \* the split output currently on disk was compared with the original by THIS run (history variable)
-          status,     \* outcome of the last finished run: "none", "1", "0", "m1" (= -1), "crashed" (injected), "raised" (intrinsic)
+          status,     \* outcome of the last finished run: "none", "1", "0", "m1" (= -1), "crashed" (injected), "raised" (intrinsic),
+                      \* "refused" (the verification found a difference: AssertionError out of check_NP24)
           nruns,
           fs0         \* directory when the running run began (history variable)
 
 vars == <<kind, fs, opts, rpc, widx, cs, cph, csub, checkDone, verified, status, nruns, fs0>>
 
-Opts == [ow : BOOLEAN, chk : BOOLEAN, cmp : BOOLEAN, del : BOOLEAN, part : BOOLEAN]
+Opts == [ow : BOOLEAN, chk : BOOLEAN, cmp : BOOLEAN, del : BOOLEAN, part : BOOLEAN, cb : BOOLEAN, sub : BOOLEAN]
 DoneSt(o) == IF o.part THEN "Q" ELSE "C"     \* what a finished window loop leaves
 ShOf(k) == IF k = "NP24" THEN Sh ELSE {0}
+PSh(k, o) == IF k = "NP24" /\ o.sub THEN {0} ELSE ShOf(k)      \* the shanks this run processes
+\* initial directories (overridden by the boxes: spec/mc/NP2Convert_*.cfg)
+Forms == {"bin", "cbin"}
+Founds == {"none"}
+SubRuns == FALSE      \* whether runs restricted to the first shank (`sub`) are explored
+FormSt(form, x) ==
+    IF x = "orig" THEN (IF form \in {"bin", "both", "binS"} THEN "C" ELSE IF form = "cbinS" THEN "P" ELSE "A")
+    ELSE (IF form \in {"cbin", "both", "cbinS"} THEN "C" ELSE IF form = "binS" THEN "P" ELSE "A")
+FoundFS(k, found) ==
+    LET on(p) == {K(p, s) : s \in ShOf(k)}
+        ap(S) == IF k = "NP24" THEN S ELSE {}
+        Ps == IF found = "bins" THEN ap(on("ap")) \cup on("lf")
+              ELSE IF found = "cbins" THEN ap(on("apc")) \cup on("lfc")
+              ELSE IF found = "mixed" THEN ap(on("ap") \cup on("apc") \cup on("apm")) \cup on("lf") \cup on("lfc") \cup on("lfm")
+              ELSE {}
+        Cs == IF found \in {"bins", "cbins"} THEN on("dir") \cup on("lfm") \cup ap(on("apm"))
+              ELSE IF found \in {"dirs", "mixed"} THEN on("dir")
+              ELSE IF k = "NP21" THEN {"dir0"} ELSE {}
+    IN [x \in Keys |-> IF x \in Ps THEN "P" ELSE IF x \in Cs THEN "C" ELSE "A"]
+Handed(cb, f) == IF cb THEN f["origc"] = "C" ELSE f["orig"] = "C"     \* the file given to the constructor is there
+\* Outside the property (DESIGN.md 9.6): when only some of the shank folders exist, a run without overwrite declines
+\* (status 0) but first creates the missing folders with empty files.  Such directories arise only from an interruption
+\* inside the folder preparation or from a run restricted to one shank (`sub`); a full run without overwrite is not
+\* started on them.
+FoldersUneven(f) == (\E s \in Sh : f[K("dir", s)] = "A") /\ (\E s \in Sh : f[K("dir", s)] # "A")
 Set1(f, key, v) == [f EXCEPT ![key] = v]
 SetAll(f, p, S, v) == [x \in DOMAIN f |-> IF \E s \in S : x = K(p, s) THEN v ELSE f[x]]
 OrigPresent(f) == f["orig"] = "C" \/ f["origc"] = "C"
 
 Init ==
     /\ kind \in Kinds
-    /\ \E form \in {"bin", "cbin"} :
-         fs = [x \in Keys |-> IF x = "orig" THEN (IF form = "bin" THEN "C" ELSE "A")
-                              ELSE IF x = "origc" THEN (IF form = "cbin" THEN "C" ELSE "A")
-                              ELSE IF kind = "NP21" /\ x = "dir0" THEN "C" ELSE "A"]
-    /\ opts = [ow |-> FALSE, chk |-> FALSE, cmp |-> FALSE, del |-> FALSE, part |-> FALSE]
+    /\ \E form \in Forms, found \in Founds :
+         /\ (kind \in {"NP1", "split"}) => (found = "none" /\ form \in {"bin", "cbin"})
+         /\ fs = [x \in Keys |-> IF x \in {"orig", "origc"} THEN FormSt(form, x) ELSE FoundFS(kind, found)[x]]
+    /\ opts = [ow |-> FALSE, chk |-> FALSE, cmp |-> FALSE, del |-> FALSE, part |-> FALSE, cb |-> FALSE, sub |-> FALSE]
     /\ rpc = "idle" /\ widx = 0 /\ cs = 0 /\ cph = "ap" /\ csub = "stale" /\ checkDone = FALSE /\ verified = FALSE
     /\ status = "none" /\ nruns = 0 /\ fs0 = fs
 
@@ -71,22 +109,25 @@ Finish(st) == /\ rpc' = "idle" /\ status' = st /\ nruns' = nruns + 1
 
 \* NP2Converter(ap_file, ...) ; process(overwrite)
 Begin(o) ==
-    /\ rpc = "idle" /\ nruns < MaxRuns /\ OrigPresent(fs)
+    /\ rpc = "idle" /\ nruns < MaxRuns /\ Handed(o.cb, fs)
+    /\ (o.sub => (kind = "NP24" /\ SubRuns))
+    /\ ~(kind = "NP24" /\ ~o.ow /\ ~o.sub /\ FoldersUneven(fs))
     /\ opts' = o /\ rpc' = "prepare" /\ widx' = 0
     \* compression cursor: NP2.4 starts with shank 0 / AP; NP2.1 compresses the original in place first (if it is not
     \* compressed already) and then its single LF file; the stale .cbin is unlinked only when overwriting
     /\ cs' = 0 /\ cph' = (IF kind = "NP21" THEN "lf" ELSE "ap")
-    /\ csub' = (IF kind = "NP21" /\ fs["orig"] = "C" THEN "orig" ELSE IF o.ow THEN "stale" ELSE "comp")
+    /\ csub' = (IF kind = "NP21" /\ ~o.cb THEN "orig" ELSE IF o.ow THEN "stale" ELSE "comp")
     /\ checkDone' = FALSE /\ verified' = FALSE /\ status' = "none" /\ fs0' = fs
     /\ UNCHANGED <<kind, fs, nruns>>
 
 \* process(overwrite) called again on the SAME converter object (overwrite is an argument of process(), the other options
 \* belong to the object): check_completed is not reset, the cursor is
 BeginReuse(ow) ==
-    /\ rpc = "idle" /\ nruns > 0 /\ nruns < MaxRuns /\ OrigPresent(fs) /\ status \in {"1", "0", "crashed"}
+    /\ rpc = "idle" /\ nruns > 0 /\ nruns < MaxRuns /\ Handed(opts.cb, fs) /\ status \in {"1", "0", "crashed", "refused"}
+    /\ ~(kind = "NP24" /\ ~ow /\ ~opts.sub /\ FoldersUneven(fs))
     /\ opts' = [opts EXCEPT !.ow = ow] /\ rpc' = "prepare" /\ widx' = 0
     /\ cs' = 0 /\ cph' = (IF kind = "NP21" THEN "lf" ELSE "ap")
-    /\ csub' = (IF kind = "NP21" /\ fs["orig"] = "C" THEN "orig" ELSE IF ow THEN "stale" ELSE "comp")
+    /\ csub' = (IF kind = "NP21" /\ ~opts.cb THEN "orig" ELSE IF ow THEN "stale" ELSE "comp")
     /\ status' = "none" /\ fs0' = fs /\ verified' = FALSE
     /\ UNCHANGED <<kind, fs, nruns, checkDone>>
 
@@ -96,8 +137,8 @@ Prepare ==
     /\ CASE kind = "NP1" -> fs' = fs /\ Finish("m1")
          [] kind = "split" -> fs' = fs /\ Finish("0")
          [] kind = "NP24" ->
-              LET redo == {s \in Sh : fs[K("dir", s)] = "A" \/ opts.ow}
-                  exists == \E s \in Sh : fs[K("dir", s)] # "A" /\ ~opts.ow
+              LET redo == {s \in PSh(kind, opts) : fs[K("dir", s)] = "A" \/ opts.ow}
+                  exists == \E s \in PSh(kind, opts) : fs[K("dir", s)] # "A" /\ ~opts.ow
               IN /\ fs' = SetAll(SetAll(SetAll(fs, "dir", redo, "C"), "ap", redo, "P"), "lf", redo, "P")
                  /\ IF exists THEN Finish("0")
                     ELSE rpc' = "window" /\ UNCHANGED <<kind, opts, widx, cs, cph, csub, checkDone, verified, status, nruns, fs0>>
@@ -113,7 +154,8 @@ Window ==
     /\ rpc = "window" /\ widx < NW
     /\ widx' = widx + 1
     /\ IF widx + 1 = NW
-       THEN /\ fs' = (IF kind = "NP24" THEN SetAll(SetAll(fs, "ap", Sh, DoneSt(opts)), "lf", Sh, DoneSt(opts)) ELSE Set1(fs, "lf0", DoneSt(opts)))
+       THEN /\ fs' = (IF kind = "NP24" THEN SetAll(SetAll(fs, "ap", PSh(kind, opts), DoneSt(opts)), "lf", PSh(kind, opts), DoneSt(opts))
+                      ELSE Set1(fs, "lf0", DoneSt(opts)))
             /\ rpc' = "close"
        ELSE fs' = fs /\ rpc' = "window"
     /\ UNCHANGED <<kind, opts, cs, cph, csub, checkDone, verified, status, nruns, fs0>>
@@ -124,20 +166,24 @@ Close ==
     /\ UNCHANGED <<kind, fs, opts, widx, cs, cph, csub, checkDone, verified, status, nruns, fs0>>
 MetaAP ==
     /\ rpc = "meta_ap"
-    /\ fs' = SetAll(fs, "apm", Sh, "C") /\ rpc' = "meta_lf"
+    /\ fs' = SetAll(fs, "apm", PSh(kind, opts), "C") /\ rpc' = "meta_lf"
     /\ UNCHANGED <<kind, opts, widx, cs, cph, csub, checkDone, verified, status, nruns, fs0>>
 AfterMeta == IF kind = "NP24" /\ opts.chk THEN "check"
              ELSE IF opts.cmp THEN "compress"
              ELSE IF kind = "NP24" /\ opts.del THEN "delete" ELSE "return"
 MetaLF ==
     /\ rpc = "meta_lf"
-    /\ fs' = SetAll(fs, "lfm", ShOf(kind), "C") /\ rpc' = AfterMeta
+    /\ fs' = SetAll(fs, "lfm", PSh(kind, opts), "C") /\ rpc' = AfterMeta
     /\ UNCHANGED <<kind, opts, widx, cs, cph, csub, checkDone, verified, status, nruns, fs0>>
 
-\* check_NP24: compares every window, then closes its readers and only then sets check_completed
+\* check_NP24: compares every window, then closes its readers and only then sets check_completed.  When only one shank was
+\* split off (`sub`) the reassembled windows differ from the original in the other shanks' channels: the comparison fails,
+\* the run ends there ("refused") and nothing is deleted.
 Check ==
-    /\ rpc = "check" /\ rpc' = "check_closing"
-    /\ UNCHANGED <<kind, fs, opts, widx, cs, cph, csub, checkDone, verified, status, nruns, fs0>>
+    /\ rpc = "check"
+    /\ IF opts.sub
+       THEN fs' = fs /\ Finish("refused")
+       ELSE rpc' = "check_closing" /\ UNCHANGED <<kind, fs, opts, widx, cs, cph, csub, checkDone, verified, status, nruns, fs0>>
 CheckClosing ==
     /\ rpc = "check_closing"
     /\ checkDone' = TRUE /\ verified' = TRUE
@@ -157,7 +203,8 @@ CompressOrig ==
 CompressOrigRm ==
     /\ rpc = "compress" /\ csub = "origrm"
     /\ fs' = Set1(fs, "orig", "A") /\ csub' = (IF opts.ow THEN "stale" ELSE "comp")
-    /\ UNCHANGED <<kind, opts, rpc, widx, cs, cph, checkDone, verified, status, nruns, fs0>>
+    /\ opts' = [opts EXCEPT !.cb = TRUE]             \* the object now points to the .cbin (ap_file, sr)
+    /\ UNCHANGED <<kind, rpc, widx, cs, cph, checkDone, verified, status, nruns, fs0>>
 StaleNow == csub = "stale"
 UnlinkStale ==         \* only when overwrite
     /\ rpc = "compress" /\ StaleNow /\ opts.ow
@@ -177,7 +224,7 @@ UnlinkBin ==
     /\ fs' = Set1(fs, BinKey, "A")
     /\ IF cph = "ap"
        THEN cph' = "lf" /\ cs' = cs /\ csub' = (IF opts.ow THEN "stale" ELSE "comp") /\ rpc' = rpc
-       ELSE IF kind = "NP24" /\ cs + 1 < NSH
+       ELSE IF kind = "NP24" /\ (cs + 1) \in PSh(kind, opts)
             THEN cph' = "ap" /\ cs' = cs + 1 /\ csub' = (IF opts.ow THEN "stale" ELSE "comp") /\ rpc' = rpc
             ELSE cph' = cph /\ cs' = cs /\ csub' = "done" /\ rpc' = AfterCompress
     /\ UNCHANGED <<kind, opts, widx, checkDone, verified, status, nruns, fs0>>
@@ -186,7 +233,7 @@ UnlinkBin ==
 Delete ==
     /\ rpc = "delete"
     /\ fs' = (IF checkDone /\ opts.del /\ (Variant # "fixed" \/ ~opts.part)
-              THEN (IF fs["orig"] = "C" THEN Set1(fs, "orig", "A") ELSE Set1(fs, "origc", "A"))
+              THEN (IF opts.cb THEN Set1(fs, "origc", "A") ELSE Set1(fs, "orig", "A"))      \* the file that was handed over
               ELSE fs)
     /\ rpc' = "return"
     /\ UNCHANGED <<kind, opts, widx, cs, cph, csub, checkDone, verified, status, nruns, fs0>>
@@ -215,9 +262,9 @@ DeleteGuardP(k, f, g, cd) ==
     /\ (k = "NP24" /\ OrigPresent(f) /\ ~OrigPresent(g)) => (cd /\ \A s \in Sh : ShankAPComplete(g, s))
     /\ (k # "NP24") => (OrigPresent(f) => OrigPresent(g))
     /\ (f["orig"] = "C" /\ g["orig"] # "C" /\ k = "NP21") => g["origc"] = "C"
-OutputsExist(k, f) == IF k = "NP24" THEN \A s \in Sh : f[K("dir", s)] # "A" ELSE f["lf0"] # "A" \/ f["lfc0"] # "A"
+OutputsExist(k, o, f) == IF k = "NP24" THEN \A s \in PSh(k, o) : f[K("dir", s)] # "A" ELSE f["lf0"] # "A" \/ f["lfc0"] # "A"
 CompleteSet(k, o, f) ==
-    \A s \in ShOf(k) :
+    \A s \in PSh(k, o) :
         /\ f[K("lfm", s)] = "C"
         /\ (k = "NP24" => f[K("apm", s)] = "C")
         /\ IF o.cmp THEN /\ f[K("lfc", s)] = DoneSt(o) /\ f[K("lf", s)] = "A"
@@ -226,12 +273,13 @@ CompleteSet(k, o, f) ==
 \* outcome of a finished run: st = its status, b / e = directory at its begin / end
 OutcomeP(k, o, st, b, e) ==
     /\ st # "raised"                                                   \* no failure nobody injected
+    /\ st = "refused" => (o.sub /\ o.chk /\ k = "NP24")                 \* the verification fails only when it has to
     /\ (k = "NP1") => (st \in {"m1", "crashed"} /\ e = b)
     /\ (k = "split") => (st \in {"0", "crashed"} /\ e = b)
     /\ st = "0" => e = b                                                  \* "did nothing" means nothing changed
-    /\ (k \in {"NP24", "NP21"} /\ ~o.ow /\ OutputsExist(k, b) /\ st # "crashed") => st = "0"
+    /\ (k \in {"NP24", "NP21"} /\ ~o.ow /\ OutputsExist(k, o, b) /\ st # "crashed") => st = "0"
     /\ (k \in {"NP24", "NP21"} /\ st = "1") => CompleteSet(k, o, e)
-    /\ (k \in {"NP24", "NP21"} /\ o.ow /\ st # "crashed") => st = "1"     \* a forced re-run completes from any state
+    /\ (k \in {"NP24", "NP21"} /\ o.ow /\ st \notin {"crashed", "refused"}) => st = "1"     \* a forced re-run completes from any state
 
 Recoverable == RecoverableP(kind, fs)
 DeleteGuard == [][DeleteGuardP(kind, fs, fs', verified')]_vars
